@@ -4,13 +4,24 @@ import (
 	"flag"
 	"fmt"
 	"os"
+	"os/exec"
 	"regexp"
 	"sort"
 	"strings"
 	"time"
 )
 
+var (
+	origPath  string
+	defaultGo = "go"
+)
+
 func main() {
+	origPath = os.Getenv("PATH")
+	if p, err := exec.LookPath("go"); err == nil {
+		defaultGo = p
+	}
+	os.Setenv("PATH", "/opt/veriftools/go1.26.8/bin:"+origPath)
 	if len(os.Args) < 2 {
 		fmt.Fprintln(os.Stderr, "usage: gowp verify|check ...")
 		os.Exit(2)
@@ -104,9 +115,4 @@ func cmdVerify(args []string) {
 	if bad > 0 {
 		os.Exit(1)
 	}
-}
-
-func cmdCheck(args []string) {
-	fmt.Fprintln(os.Stderr, "not implemented yet")
-	os.Exit(2)
 }
